@@ -220,7 +220,10 @@ func (d *npParentData) OwnLabels() iter.Seq2[string, string] {
 
 func (d *npParentData) DiscardEndpointID(id any) {
 	if d.endpointIDs == nil {
-		panic("discard of unknown ID")
+		// Nothing to discard.  AddEndpointID is idempotent (the IDs are a set), so an endpoint that
+		// lists the same parent twice is recorded once but discarded once per list entry; the second
+		// discard must be a no-op rather than a panic.
+		return
 	}
 	d.endpointIDs.Discard(id)
 	if d.endpointIDs.Len() == 0 {
